@@ -24,6 +24,7 @@ func init() {
 			"client.Rename renames the history only after the file rename succeeded, keyed by old and new Location; DeleteDAG removes history (keyed by the DAG's location) and definition on the success path and returns the first error (C18.order)",
 			"effect table of the client's operations: create / rename / save / delete / status edit / suspend invoke only the mutating store methods they are about, reading operations none (C18.footprint)",
 			"the history store's Rename removes the old directory only non-recursively or when found empty (C18.rename-keeps-history); destructive history operations stay inside the DAG's own directory (C06.isolation shared)",
+			"the functions of the loader and of the definition store that make a DAG's location absolute apply the same set of canonicalising calls (filepath.Abs / EvalSymlinks / Readlink / Rel): one spelling, one history key (C18.location-spelling-agrees)",
 		},
 		NotDec: []string{"sequences of operations against a reference model", "crash points other than the save; fsync durability", "races between check and write (create/rename are check-then-act)"},
 	})
@@ -36,6 +37,7 @@ func runC18(e *Env) {
 	c18DeleteNeedsLocation(e)
 	c18Footprint(e)
 	c06Isolation(e)
+	c18LocationSpelling(e, "C18.location-spelling-agrees")
 }
 
 // existsIn: the conjunction says the file `arg` exists (pol) / does not exist
@@ -54,8 +56,8 @@ func (e *Env) existsIn(alt []BLit, arg ssa.Value, pol bool) (bool, ssa.Value) {
 		if !is || (bl.Pol == positive) != pol {
 			continue
 		}
-		a := ir.Deep(bl.Val(c.Call.Args[len(c.Call.Args)-1]))
-		if arg == nil || a == ir.Deep(arg) {
+		a := e.pathBase(bl.Val(c.Call.Args[len(c.Call.Args)-1]))
+		if arg == nil || a == e.pathBase(arg) {
 			return true, a
 		}
 	}
@@ -74,6 +76,12 @@ func (e *Env) existsAll(lits []ir.NLit, arg ssa.Value, pol bool) bool {
 		}
 	}
 	return true
+}
+
+// samePath: two spellings of one file name (conversions and accessors of a path type
+// looked through).
+func (e *Env) samePath(a, b ssa.Value) bool {
+	return SameValue(a, b) || SameValue(e.pathBase(a), e.pathBase(b))
 }
 
 var truncatingWrites = []string{"os.WriteFile", "os.Create", "io/ioutil.WriteFile"}
@@ -183,7 +191,7 @@ func c18Guards(e *Env) {
 					same := false
 					for _, l := range lits {
 						if l.Kind == "cmp" && l.Op == token.EQL &&
-							((SameValue(l.X, src) && SameValue(l.Y, dst)) || (SameValue(l.X, dst) && SameValue(l.Y, src))) {
+							((e.samePath(l.X, src) && e.samePath(l.Y, dst)) || (e.samePath(l.X, dst) && e.samePath(l.Y, src))) {
 							same = true // renaming a file onto itself replaces nothing
 						}
 					}
@@ -528,6 +536,44 @@ func c18Order(e *Env) {
 					ok = true
 				}
 			}
+			// the definition rename made by a helper of the client (`before, after, err :=
+			// move.definition(store)`): the history rename is under `helper's error == nil`, and
+			// the helper hands back a nil error only after its rename succeeded
+			if !ok && fileRen[0].Parent() != histRen[0].Parent() {
+				h := fileRen[0].Parent()
+				errIdx := h.Signature.Results().Len() - 1
+				if fc, isFC := fileRen[0].(*ssa.Call); isFC && errIdx >= 0 && ir.IsErrorType(h.Signature.Results().At(errIdx).Type()) {
+					reports := true
+					for _, hb := range h.Blocks {
+						if rt, isR := hb.Instrs[len(hb.Instrs)-1].(*ssa.Return); isR && e.Facts(h).Reachable(hb) && errIdx < len(rt.Results) {
+							for _, rv := range RetVals(rt, errIdx) {
+								if e.mayBeNil(rt, rv) && !e.onlyAfterNil(fc, rt) {
+									reports = false
+								}
+							}
+						}
+					}
+					if reports {
+						for _, l := range lits {
+							if l.Kind != "cmp" || l.Op != token.EQL || !ir.IsNilConst(l.Y) {
+								continue
+							}
+							var hc *ssa.Call
+							switch x := ir.Resolve(l.X).(type) {
+							case *ssa.Extract:
+								if c, isC := x.Tuple.(*ssa.Call); isC && x.Index == errIdx {
+									hc = c
+								}
+							case *ssa.Call:
+								hc = x
+							}
+							if hc != nil && hc.Call.StaticCallee() == h {
+								ok = true
+							}
+						}
+					}
+				}
+			}
 			r.Check(ok, "client.Rename: history renamed only after the definition rename succeeded", e.InstrPos(histRen[0]),
 				"the history is moved although the definition rename failed or was refused (the DAG would lose its history)", e.FactsStr("dominating conditions: ", lits))
 			// keys: oldDAG.Location (found before the rename) and newDAG.Location (found after)
@@ -572,6 +618,23 @@ func c18Order(e *Env) {
 					for _, v := range RetVals(rt, 0) {
 						if ir.Resolve(v) == ssa.Value(second.(*ssa.Call)) {
 							okSecond = true
+						}
+						// one error variable for both (`if err = a(); err == nil { err = b() }; return err`):
+						// what is returned is the first call's error or the second's, nothing else
+						if ph, isPhi := ir.Resolve(v).(*ssa.Phi); isPhi {
+							hasSecond, only := false, true
+							for _, leaf := range phiLeaves(ph) {
+								switch ir.Resolve(leaf) {
+								case ssa.Value(second.(*ssa.Call)):
+									hasSecond = true
+								case ssa.Value(first.(*ssa.Call)):
+								default:
+									only = false
+								}
+							}
+							if hasSecond && only {
+								okSecond = true
+							}
 						}
 					}
 				}
